@@ -39,6 +39,15 @@ CLAIMS = {
             "C14_rows_partial under the decidable exclusion of the known class, witnesses C14_refuted_*; tie: exhaustive small strings x "
             "all spans/positions incl. recording FormatOption against the model and an independent oracle; known finding F4b "
             "(span starting at a line start is rendered from the previous line; pinned by an existing test).", "DESIGN.md §4 C14"),
+    "C04": ("Theorems C04_full_iff / C04_check_iff / C04_eoi_attempt (try_parse = Ok iff prefix parse + trailing skip (none for atomic "
+            "kinds) + at end; tree of the prefix parse), C04_no_success_with_unread, C04_no_reject_at_end. Tie: rule structs of all "
+            "kinds x inputs with skippable / pseudo-skippable tails x three input forms, against an independent trailing-skip oracle.",
+            "DESIGN.md §4 C04"),
+    "C10": ("Theorems C10_tracker_truth (for every event trace: what the report lists has a matching exit event at the reported "
+            "position), C10_position_ge_start, C10_location (a rejected full parse reports at or after the EOI attempt following the "
+            "matched prefix). Tie: Tracker::finish() of the real code vs the model's fold for every run; location checks; rendering "
+            "twice + second process; semantic audit on the real code (expected rules re-run at the reported location).",
+            "DESIGN.md §4 C10"),
     "C15": ("Theorems C15_preorder / C15_levelorder / C15_render / C15_thin for every rose tree (loops = recursive specs, fuel bound "
             "proved); tie: real iterators.rs on all tree shapes up to the tier's node bound + random trees.", "DESIGN.md §4 C15"),
 }
